@@ -268,3 +268,19 @@ def number_fraction(node) -> Fraction | None:
         # exact decimal value of the literal as written (repr round-trips)
         return Fraction(repr(node.value))
     return None
+
+
+def clone(node):
+    """Structural copy of an AST (fields only; no _parent back-links)."""
+    if isinstance(node, list):
+        return [clone(x) for x in node]
+    if not isinstance(node, ast.AST):
+        return node
+    new = type(node)()
+    for f in node._fields:
+        if hasattr(node, f):
+            setattr(new, f, clone(getattr(node, f)))
+    for a in ("lineno", "col_offset", "end_lineno", "end_col_offset"):
+        if hasattr(node, a):
+            setattr(new, a, getattr(node, a))
+    return new
